@@ -180,6 +180,8 @@ class ExprMixin(CallMixin):
         for x in elts:
             if isinstance(x, ast.Starred):
                 v = self.resolve_alt(self.eval(x.value, env, module))
+                if isinstance(v, NodeV) and not v.kinds:
+                    raise PathAbort()
                 items = self.concrete_items(v)
                 if items is None:
                     out.append(Sym("star", v))
